@@ -164,6 +164,91 @@ def C08_multi_statement : Prop :=
     ∀ cands st, repairDna (inducedAccessor k s) (applyEdits es w) v k chk true heap = .ok (cands, st) →
       st.detected = es.length → w ∈ cands
 
+section Multi
+open RepairEdit
+
+/-- the strands of the multi-edit case in block form: a leading clean stretch up to the first
+edited position, then one block per edit. -/
+theorem applyEdits_blocks (k : Nat) (hk : 1 ≤ k) : ∀ (es : List Edit) (w : List Char), IsAcgt w →
+    Spaced k es → (∀ e ∈ es, e.Interior k w.length ∧ e.Proper w) →
+    ∃ (G0 : List Char) (bs : List Blk), w = G0 ++ tailO bs ∧ applyEdits es w = G0 ++ tailC bs ∧
+      bs.length = es.length ∧ Chain k G0.length bs ∧
+      (es = [] → G0.length = w.length) ∧ (∀ e es', es = e :: es' → G0.length = e.pos)
+  | [], w, _, _, _ => ⟨w, [], by simp [tailO], by simp [applyEdits, tailC], rfl, trivial,
+      fun _ => rfl, fun _ _ h => by cases h⟩
+  | e :: es, w, hw, hsp, hes => by
+    have hsp' : Spaced k es := by
+      cases es with
+      | nil => trivial
+      | cons e' r => exact hsp.2
+    obtain ⟨G, bs, ew, ec, hlen, hch, hnil, hcons⟩ := applyEdits_blocks k hk es w hw hsp'
+      (fun e' he' => hes e' (List.mem_cons_of_mem _ he'))
+    obtain ⟨⟨hkp, hpn⟩, hprop⟩ := hes e List.mem_cons_self
+    have hGw : G.length ≤ w.length := by
+      have := congrArg List.length ew; simp at this; omega
+    have h1 : e.pos + 2 * k + 1 ≤ G.length := by
+      cases es with
+      | nil => rw [hnil rfl]; omega
+      | cons e' r => rw [hcons e' r rfl]; have := hsp.1; omega
+    have h2 : bs ≠ [] → e.pos + 3 * k + 2 ≤ G.length := by
+      intro hne
+      cases es with
+      | nil => simp at hlen; exact absurd hlen hne
+      | cons e' r => rw [hcons e' r rfl]; exact hsp.1
+    have hacgtG : IsAcgt G := by rw [ew] at hw; exact (IsAcgt.append.mp hw).1
+    have hwG : ∀ i (h : i < G.length), w[i]? = some G[i] := by
+      intro i h; rw [ew, List.getElem?_append_left h, List.getElem?_eq_getElem h]
+    have happ : applyEdits (e :: es) w = e.apply (G ++ tailC bs) := by
+      simp only [applyEdits, List.foldr_cons] at ec ⊢; rw [ec]
+    rw [happ]
+    cases e with
+    | subst p x =>
+      simp only [Edit.pos] at hkp hpn h1 h2
+      have hp : p < G.length := by omega
+      refine ⟨G.take p, ⟨[G[p]], x, G.drop (p + 1)⟩ :: bs, ?_, ?_, by simp [hlen], ?_, by simp,
+        fun e es' h => by cases h; simp [Edit.pos]; omega⟩
+      · rw [ew]; exact orig_block1 G _ p hp
+      · exact set_block G _ p x hp
+      · have : (G.take p).length = p := by simp; omega
+        rw [this]
+        refine Chain.cons hkp (Or.inl ⟨G[p], rfl, ?_⟩) hprop.1 (by omega) h1 h2 hch
+        intro h; apply hprop.2; rw [hwG p hp, h]
+    | ins p x =>
+      simp only [Edit.pos] at hkp hpn h1 h2
+      have hp : p ≤ G.length := by omega
+      refine ⟨G.take p, ⟨[], x, G.drop p⟩ :: bs, ?_, ?_, by simp [hlen], ?_, by simp,
+        fun e es' h => by cases h; simp [Edit.pos]; omega⟩
+      · rw [ew]; simp only [tailO, List.nil_append]
+        rw [← List.append_assoc, List.take_append_drop]
+      · exact ins_block G _ p x hp
+      · have : (G.take p).length = p := by simp; omega
+        rw [this]
+        exact Chain.cons hkp (Or.inr (Or.inl ⟨rfl, rfl⟩)) hprop (by omega) h1 h2 hch
+    | del p =>
+      simp only [Edit.pos] at hkp hpn h1 h2
+      have hp : p + 1 < G.length := by omega
+      refine ⟨G.take p, ⟨[G[p], G[p + 1]], G[p + 1], G.drop (p + 2)⟩ :: bs, ?_, ?_, by simp [hlen], ?_,
+        by simp, fun e es' h => by cases h; simp [Edit.pos]; omega⟩
+      · rw [ew]; exact orig_block2 G _ p hp
+      · exact del_block G _ p hp
+      · have : (G.take p).length = p := by simp; omega
+        rw [this]
+        exact Chain.cons hkp (Or.inr (Or.inr ⟨rfl, G[p], rfl⟩)) (hacgtG _ (List.getElem_mem _))
+          (by omega) h1 h2 hch
+
+/-- several separated interior edits: when every edit is detected, the original strand is among
+the candidates. -/
+theorem C08_multi : C08_multi_statement := by
+  intro k s v w es chk heap hk hs hv hw hes hsp hc hheap cands st hres hdet
+  obtain ⟨G0, bs, ew, ec, hlen, hch, -, -⟩ := applyEdits_blocks k hk es w (isWalk_isAcgt _ w _ hw) hsp hes
+  have hchk := RepairEdit.vtMatches_of_check w chk hc
+  have h1 : 1 ≤ heap := Nat.le_trans (Nat.pow_pos (by omega)) hheap
+  rw [ec] at hres
+  rw [ew] at hw hchk ⊢
+  exact multi_core k s v G0 bs chk heap hk hs hv hw hch hchk h1 cands st hres (by rw [hdet, hlen])
+
+end Multi
+
 /-! non-vacuity: the doctest's substitution on the GC-balanced order-2 graph -/
 example : (Edit.subst 5 'A').apply "TCTCTCTCTCTC".toList = "TCTCTATCTCTC".toList ∧
     (Edit.subst 5 'A').Interior 2 12 := by
